@@ -114,6 +114,11 @@ def cmdFor (s : St2) (x : Nat × Ch × Nat) : Ev2 → Bool
   | .ev (.cmd c _ m pos _) => m == x.1 && c == x.2.1 && recAt s.base m c pos == some x.2.2
   | _ => false
 
+/-- an attempt for record `x` is outstanding -/
+def inFl (s : St) (x : Nat × Ch × Nat) : Bool := inFlight s x.1 x.2.1 x.2.2
+/-- how often record `x` was reported delivered (`K`) in the current life of its message -/
+def dcount (s : St) (x : Nat × Ch × Nat) : Nat := ((s.msg x.1).delivered).count (x.2.1, x.2.2)
+
 def acceptAll2 (cfg : Cfg) : St2 → List Ev2 → Option St2
   | s, [] => some s
   | s, e :: es => match accept2 cfg s e with
